@@ -112,20 +112,11 @@ def check_struct(ctx, ty, spec, rules=("R-1", "R-2", "R-3", "R-4")):
     return table
 
 
-def check(ctx):
+def check_protected_bstr(ctx, rule):
+    """ProtectedHeader::from_cbor_bstr: the slot must be a bstr; empty -> the default header, otherwise the header decoded
+    from exactly one item of those bytes; nothing else can reject (shared with C08: a header in protected position is
+    accepted exactly when the bare map is)"""
     prog = ctx.prog
-    for ty in MESSAGE_TYPES:
-        check_struct(ctx, ty, STRUCTS[ty])
-    ctx.floor("R-2", "message types", len(MESSAGE_TYPES), 8)
-
-    # R-5 wrappers and the protected bstr
-    for w, target in sorted(WRAPPERS.items()):
-        f = prog.fn(w)
-        rt = resolve_consts(prog, Prov(f).return_term())
-        ok = is_call(rt) and rt[1] == target and len(rt[2]) == 2 and rt[2][0] == ("param", 0) and rt[2][1][0] == "const" \
-            and isinstance(rt[2][1][1], int) and rt[2][1][1] >= 1
-        ctx.ob("R-5", "wrapper:%s" % w, ok, "%s is exactly %s(value, <constant budget >= 1>)" % (w, target), where=f.span,
-               detail={"return": show(rt)[:160]})
     ph = prog.fn("header::ProtectedHeader::from_cbor_bstr_depth")
     pv = Prov(ph)
     agg = codec.OkAggregate(ph, pv)
@@ -153,10 +144,27 @@ def check(ctx):
             e, ne = seen.get(True), seen.get(False)
             good = bool(e is not None and ne is not None and is_call(e, "<header::Header as core::default::Default>::default")
                         and ne[0] == "tryok" and is_call(ne[1], "header::Header::from_cbor_value_depth"))
-    ctx.ob("R-5", "protected-bstr", good,
+    ctx.ob(rule, "protected-bstr", good,
            "from_cbor_bstr: the slot must be a bstr; empty -> Header::default(), otherwise the header decoded from exactly one item of those bytes",
            where=ph.span, detail=det, sample=det)
     cen = census(ph, pv)
     want = {"propagate:" + codec.TRY_BYTES, "propagate:common::read_to_value", "propagate:header::Header::from_cbor_value_depth"}
-    ctx.ob("R-5", "protected-bstr-census", set(cen) == want, "from_cbor_bstr rejects only: not a bstr, not exactly one item, not a header map",
+    ctx.ob(rule, "protected-bstr-census", set(cen) == want, "from_cbor_bstr rejects only: not a bstr, not exactly one item, not a header map",
            detail={"found": sorted(cen)})
+
+
+def check(ctx):
+    prog = ctx.prog
+    for ty in MESSAGE_TYPES:
+        check_struct(ctx, ty, STRUCTS[ty])
+    ctx.floor("R-2", "message types", len(MESSAGE_TYPES), 8)
+
+    # R-5 wrappers and the protected bstr
+    for w, target in sorted(WRAPPERS.items()):
+        f = prog.fn(w)
+        rt = resolve_consts(prog, Prov(f).return_term())
+        ok = is_call(rt) and rt[1] == target and len(rt[2]) == 2 and rt[2][0] == ("param", 0) and rt[2][1][0] == "const" \
+            and isinstance(rt[2][1][1], int) and rt[2][1][1] >= 1
+        ctx.ob("R-5", "wrapper:%s" % w, ok, "%s is exactly %s(value, <constant budget >= 1>)" % (w, target), where=f.span,
+               detail={"return": show(rt)[:160]})
+    check_protected_bstr(ctx, "R-5")
